@@ -76,6 +76,14 @@ def run_case(spec):
     case text and the implementation's answers."""
     with H.Recorder() as rec, H.quiet():
         sim = H.new_sim(spec, solver=H.LOOSE)
+        if spec.get('zero_datum') is not None:
+            # control: one datum whose residual is EXACTLY zero (observed := synthetic);
+            # it legitimately contributes nothing to misfit and adjoint source
+            sim.compute()
+            zi = tuple(spec['zero_datum'])
+            syn0 = np.array(sim.data.synthetic.data)
+            if np.isfinite(syn0[zi]):
+                sim.survey.data['observed'].data[zi] = syn0[zi]
         misfit = float(sim.misfit)
         grad = np.array(sim.gradient)
     srcfreq = list(sim._srcfreq)
@@ -107,6 +115,7 @@ def run_case(spec):
     # --- residual sources, one per source-frequency pair
     impl_rs = []
     hyp = []
+    strengths = []
     names_s = list(sim.survey.sources.keys())
     names_r = list(sim.survey.receivers.keys())
     names_f = list(sim.survey.frequencies.keys())
@@ -135,6 +144,9 @@ def run_case(spec):
         L.append(f"Eval vm_compute in map (fun i => out_c (rsource cj (range {nrec}) {H.kq(smu0)} "
                  f"p_{k} f_{k} w_{k} r_{k} i)) (range {len(idx)}).")
         impl_rs.append(np.array(bwd[k][0]['sfield'].field)[idx])
+        with np.errstate(invalid='ignore', divide='ignore'):
+            st = np.abs(res[si, :, fi] * wts[si, :, fi] / smu0)
+        strengths.extend(float(x) for x in st[fin[si, :, fi]])
     # --- gradient
     vol = grid.cell_volumes.reshape(grid.shape_cells, order='F')
     L.append(f"Definition vol := {H.karr3(vol)}.")
@@ -155,7 +167,8 @@ def run_case(spec):
              f"[{'; '.join(sf_items)}] cx cy cz.")
     L.append(f"Eval vm_compute in map (dump3 out_c {nx} {ny} {nz}) gres.")
     L.append(f"Eval vm_compute in (length gres, ncomp {spec['aniso']}).")
-    impl = dict(misfit=misfit, grad=grad, rs=impl_rs, hyp=hyp, shape=(nx, ny, nz))
+    impl = dict(misfit=misfit, grad=grad, rs=impl_rs, hyp=hyp, shape=(nx, ny, nz),
+                strengths=strengths)
     return '\n'.join(L) + '\n', impl
 
 
@@ -289,9 +302,17 @@ def correspondence(ctx):
     rng = ctx.rng
     n = 30 if ctx.thorough else 12
     off = rng.randrange(24)
-    specs = [H.add_observed(H.gen_spec(rng, idx=off + i, big=(ctx.thorough and i % 6 == 5),
-                                      max_pairs=4 if ctx.thorough else 2), rng)
-             for i in range(n)]
+    classes = list(H.SCALE_CLASSES)
+    specs = []
+    for i in range(n):
+        sp = H.gen_spec(rng, idx=off + i, big=(ctx.thorough and i % 6 == 5),
+                        max_pairs=4 if ctx.thorough else 2)
+        if i % 2 == 1:                      # every second case: a data / weight SCALE class
+            H.apply_scale_class(sp, classes[(off + i // 2) % len(classes)])
+        sp = H.add_observed(sp, rng)
+        if i % 4 == 0:                      # control: one exactly-zero residual
+            sp['zero_datum'] = [0, 0, 0]
+        specs.append(sp)
     texts, impls = [], []
     for i, sp in enumerate(specs):
         t, im = run_case(sp)
@@ -306,12 +327,17 @@ def correspondence(ctx):
             continue
         compare(sp, impls[i], out, dis)
         b = H.brief(sp)
-        key = (b['mapping'], b['aniso'], b['noise'], b['nan'] > 0,
+        key = (b['mapping'], b['aniso'], b['noise'], b['scale'], b['nan'] > 0,
                any(r.startswith('m') for r in b['receivers']),
                any(r.endswith('rel') for r in b['receivers']), tuple(b['sources']))
-        if key[0] != 'Conductivity' or key[1] != 'isotropic' or key[3] or key[4] or key[5]:
+        if key[0] != 'Conductivity' or key[1] != 'isotropic' or key[4] or key[5] or key[6] \
+                or key[3] != 'default':
             seen.add(key)
+        for x_ in impls[i]['strengths']:
+            dk = 'adjoint-strength decade:' + ('0' if x_ == 0 else '1e%+03d' % int(np.floor(np.log10(x_))))
+            hist[dk] = hist.get(dk, 0) + 1
         for k_ in ('map:' + b['mapping'], 'aniso:' + b['aniso'], 'noise:' + b['noise'],
+                   'scale:' + b['scale'], 'zero-residual control:' + str(sp.get('zero_datum') is not None),
                    'nan:' + str(b['nan'] > 0), 'shape:' + 'x'.join(map(str, b['shape']))):
             hist[k_] = hist.get(k_, 0) + 1
         for s_ in b['sources']:
@@ -325,7 +351,10 @@ def correspondence(ctx):
         'rule': "cases: random stretched grid 4..5^3 (thorough: up to 6^3), map = idx mod 6, anisotropy "
                 "= (idx/2) mod 4, 1-2 sources of six kinds, 2-4 electric/magnetic absolute/relative "
                 "receivers, 1-2 frequencies, observed = distorted synthetic of a perturbed model with "
-                "NaN gaps, six noise modes; each case: misfit_of, rsource (per source-frequency), "
+                "NaN gaps, six noise modes; every second case in one of the SCALE classes (std = ones, std = 2^20, "
+                "std spanning 2^-30..2^30 within one survey, source strengths x 2^-20 / 2^-17 / 2^20) so that "
+                "the adjoint-source strengths span many decades incl. << 1e-8 (measured decades in the "
+                "histogram), every fourth case with one EXACTLY zero residual (control); each case: misfit_of, rsource (per source-frequency), "
                 "gradient_pipeline evaluated in Coq on the recorded oracle fields vs the real "
                 "Simulation. distinct = distinct (map, case, noise, NaN, magnetic rx, relative rx, "
                 "sources); non-trivial = not (Conductivity, isotropic, no NaN, electric absolute rx). "
@@ -389,8 +418,8 @@ def taylor_case(spec, dir_seed, h0=None):
               if rem[i] > 100 * floor and rem[i + 1] > 100 * floor]
     ratio_err = abs(cen[2] - gd) / max(abs(gd), 1e-300)
     ratio_err0 = abs(cen[0] - gd) / max(abs(gd), 1e-300)
-    bad = (any(s < 1.8 for s in slopes) and ratio_err > 1e-3) or ratio_err > 0.05
-    _ = ratio_err0
+    bad = (any(s < 1.8 for s in slopes) and ratio_err > 1e-3) or \
+          (ratio_err > 0.05 and ratio_err > 0.3 * ratio_err0)     # gross and not converging
     diag.update(slopes=slopes, ratio_err=ratio_err)
     if bad:
         return ({'signature': 'misfit finite differences do not converge (2nd order) to <gradient, dir>',
@@ -408,11 +437,28 @@ def search(ctx, broken):
     hits = []
     off = rng.randrange(24)
     for i in range(n):
-        spec = H.add_observed(H.gen_spec(rng, idx=off + 5 * i + i // 6, big=False), rng)
-        hit, diag = taylor_case(spec, rng.randrange(2**31))
-        ctx.notes.append(f"taylor {H.brief(spec)['mapping']}/{H.brief(spec)['aniso']}: "
+        sp0 = H.gen_spec(rng, idx=off + 5 * i + i // 6, big=False)
+        if i % 2 == 0:
+            H.apply_scale_class(sp0, list(H.SCALE_CLASSES)[(off + i // 2) % len(H.SCALE_CLASSES)])
+        spec = H.add_observed(sp0, rng)
+        dseed = rng.randrange(2**31)
+        hit, diag = taylor_case(spec, dseed)
+        if diag.get('skipped'):
+            # emg3d's multigrid stagnates on some adjoint sources of MAGNETIC receivers on
+            # these tiny grids (oracle quality, C01): retry the same problem with electric
+            # receivers only, so that every scale class is really tested
+            for r_ in sp0['receivers']:
+                r_['kind'] = 'e'
+            sp0['obs'] = None
+            spec = H.add_observed(sp0, rng)
+            hit, diag = taylor_case(spec, dseed)
+            diag['retried_electric_only'] = True
+        ctx.notes.append(f"taylor {H.brief(spec)['mapping']}/{H.brief(spec)['aniso']}/"
+                         f"{H.brief(spec)['scale']}: "
                          f"slopes={['%.2f' % s for s in diag.get('slopes', [])]} "
-                         f"relerr={diag.get('ratio_err', float('nan')):.2e}")
+                         f"relerr={diag.get('ratio_err', float('nan')):.2e}"
+                         + (' (electric receivers only)' if diag.get('retried_electric_only') else '')
+                         + (' SKIPPED: ' + diag['skipped'] if diag.get('skipped') else ''))
         if hit:
             hits.append(hit)
             break
